@@ -33,11 +33,15 @@ CLAIMS = {
               "right-nulled reductions for LALR_RN). Tie B: the verified checker runs on the real dumped table of every generated and "
               "literature grammar x {LALR, LALR_PAGER, LALR_RN}; per table the comparison is complete. The construction itself is an "
               "executable Lean model (Model/Table.lean) whose WHOLE table equals the real dump on every generated grammar "
-              "(structured families, Layout grammars; 0 differences), with construction_structural / construction_complete proved for "
-              "all grammars. PARTIAL: minimality of the lookaheads for all grammars (construction_covers) is not yet a theorem - "
-              "universality of the cover property is by running the verified check on each generated grammar; the "
-              "consequence 'deterministic => unambiguous' awaits the C01 completeness theorem; 'LALR(1) => conflict-free under state "
-              "splitting' is checked per grammar."),
+              "(structured families, Layout grammars; 0 differences); proved for all grammars with the decidable Table.gwf, all settings: "
+              "construction_no_panic (every panic site of LRTable::new unreachable), construction_structural(_rn), "
+              "construction_complete, construction_accept_on_stop and construction_lookaheads_exact (the lookahead sets are exactly the "
+              "least solution of the LALR(1) equations over the automaton built, Pager splitting included). The consequence clauses are "
+              "checked on the real compile entry point: process_grammar in LR mode reports conflicts exactly when the table of that "
+              "type has an unresolved cell, for all three table types; 'deterministic => unambiguous' is C01_deterministic_is_unambiguous. "
+              "PARTIAL: that this least solution equals the union of the canonical LR(1) lookaheads for ALL grammars "
+              "(construction_covers) is not a theorem - universality of the cover property is by running the verified check on each "
+              "generated grammar; 'LALR(1) => conflict-free under state splitting' is checked per grammar."),
         design_ref="5/C04",
         note=TRUST + "; Canon.build is the definition of canonical LR(1) (trusted, ~100 lines)",
         technique="Lean 4 verified certificate checker (canonical LR(1) cover) run on the real table"),
